@@ -48,6 +48,12 @@ func (r *reader) Token() (xml.Token, error) {
 	case xml.StartElement:
 		r.depth++
 		if r.ws && t.Name.Space == wsNamespace && !r.negotiating {
+			// With WebSocket framing the peer ends its stream with a <close/>
+			// element (RFC 7395 §3.6): it is to this framing what
+			// </stream:stream> is to a TCP stream, so we're done.
+			if t.Name.Local == "close" {
+				return nil, io.EOF
+			}
 			return nil, ErrUnexpectedRestart
 		}
 		if t.Name.Space != stream.NS {
